@@ -70,19 +70,33 @@ class Verifier(ExprMixin, CallMixin, BuiltinMixin, StmtMixin, Executor):
         old_mode, old_ctx = self.spec_mode, getattr(self, 'spec_ctx', None)
         self.spec_mode = True
         self.spec_ctx = {'pre': pre, 'env': env}
+        old_facts = getattr(self, 'spec_facts', None)
+        if old_facts is None:
+            self.spec_facts = []
         try:
             st1 = st.copy()
             st1.locals = dict(env)
             return self.sev(node, st1)
         finally:
             self.spec_mode, self.spec_ctx = old_mode, old_ctx
+            if old_facts is None:
+                self.last_spec_facts = self.spec_facts
+                self.spec_facts = None
 
-    def spec_bool(self, expr, st, env, pre=None):
+    def spec_bool(self, expr, st, env, pre=None, as_goal=False):
+        """clause as a z3 Bool.  Heap typing facts about the locations the clause reads (declared class, non-null,
+        closedness) are heap invariants: conjoined when the clause is assumed, hypotheses when it is a goal."""
         v = self.spec_eval(expr, st, env, pre)
+        facts = list(self.last_spec_facts or [])
         c = self.truth(st, v)
         if c is None:
             raise OutOfReach('spec clause is not boolean: %s' % expr)
-        return c if not isinstance(c, bool) else z3.BoolVal(c)
+        c = c if not isinstance(c, bool) else z3.BoolVal(c)
+        if not facts:
+            return c
+        if as_goal:
+            return z3.Implies(z3.And(*facts), c)
+        return z3.And(*(facts + [c]))
 
     def sev(self, node, st):
         m = getattr(self, 'sev_' + type(node).__name__, None)
@@ -120,7 +134,10 @@ class Verifier(ExprMixin, CallMixin, BuiltinMixin, StmtMixin, Executor):
             fty = self.world.field_type(cname, node.attr)
             if fty is not None:
                 key = self.world.field_key(cname, node.attr)
-                return SV(self.H(st, key)[base.term], fty)
+                t = self.H(st, key)[base.term]
+                if self.spec_facts is not None:
+                    self.spec_facts.extend(self.type_facts(st, t, fty))
+                return SV(t, fty)
             f = self.world.specfuncs.get('attr:%s' % node.attr)
             if f is not None:
                 return f(self, st, base)
@@ -385,7 +402,7 @@ class Verifier(ExprMixin, CallMixin, BuiltinMixin, StmtMixin, Executor):
                 env = dict(spec_env)
                 env['result'] = result
                 for name, e in c.ensures:
-                    goal = self.spec_bool(e, st, env, pre)
+                    goal = self.spec_bool(e, st, env, pre, as_goal=True)
                     self.vcs.append(VC('%s#post.%s@path%d' % (c.key, name, pi), st.pc, goal, 'post',
                                        {'clause': e, 'path': pi}))
                 for ename, spec in c.raises.items():
@@ -413,11 +430,11 @@ class Verifier(ExprMixin, CallMixin, BuiltinMixin, StmtMixin, Executor):
                 spec = c.raises[ename]
                 env = dict(spec_env)
                 if spec.get('when'):
-                    goal = self.spec_bool(spec['when'], pre, spec_env)
+                    goal = self.spec_bool(spec['when'], pre, spec_env, as_goal=True)
                     self.vcs.append(VC('%s#raises.%s.when@path%d' % (c.key, ename, pi), st.pc, goal, 'raises',
                                        {'clause': spec['when'], 'path': pi}))
                 for name, e in spec.get('ensures', ()):
-                    goal = self.spec_bool(e, st, env, pre)
+                    goal = self.spec_bool(e, st, env, pre, as_goal=True)
                     self.vcs.append(VC('%s#raises.%s.%s@path%d' % (c.key, ename, name, pi), st.pc, goal, 'raises',
                                        {'clause': e, 'path': pi}))
                 if spec.get('frame', True):
@@ -556,7 +573,7 @@ class Verifier(ExprMixin, CallMixin, BuiltinMixin, StmtMixin, Executor):
         pre = st
         # 1. precondition obligations
         for i, r in enumerate(c.requires):
-            goal = self.spec_bool(r, pre, env)
+            goal = self.spec_bool(r, pre, env, as_goal=True)
             self.vcs.append(VC('%s#call.%s.requires%d@%s' % (self.top_key, c.key, i, fresh_name('site')), pre.pc, goal,
                                'callee_pre', {'clause': r, 'callee': c.key}))
         # 2. normal outcome
@@ -753,7 +770,7 @@ class Verifier(ExprMixin, CallMixin, BuiltinMixin, StmtMixin, Executor):
         env0 = self.inv_env(st, {'_i': mk(0), '_n': SV(n, INT)})
         for name, e in invs:
             self.vcs.append(VC('%s#loop%d.init.%s' % (c.key, ordinal, name), st.pc,
-                               self.spec_bool(e, st, env0, self.loop_pre(st)), 'loop_init', {'clause': e}))
+                               self.spec_bool(e, st, env0, self.loop_pre(st), as_goal=True), 'loop_init', {'clause': e}))
         # 2. arbitrary iteration
         sth = self.loop_havoc(st, s, spec, st)
         i = fresh('_i', IntS)
@@ -774,7 +791,7 @@ class Verifier(ExprMixin, CallMixin, BuiltinMixin, StmtMixin, Executor):
                         env2 = self.inv_env(st2, {'_i': SV(i + 1, INT), '_n': SV(n, INT)})
                         for name, e in invs:
                             self.vcs.append(VC('%s#loop%d.preserve.%s@%s' % (c.key, ordinal, name, fresh_name('p')), st2.pc,
-                                               self.spec_bool(e, st2, env2, self.loop_pre(st)), 'loop_preserve',
+                                               self.spec_bool(e, st2, env2, self.loop_pre(st), as_goal=True), 'loop_preserve',
                                                {'clause': e}))
                     elif out2[0] == 'break':
                         st3 = st2.copy()
@@ -831,7 +848,7 @@ class Verifier(ExprMixin, CallMixin, BuiltinMixin, StmtMixin, Executor):
         env0 = self.inv_env(st, {})
         for name, e in invs:
             self.vcs.append(VC('%s#loop%d.init.%s' % (c.key, ordinal, name), st.pc,
-                               self.spec_bool(e, st, env0, self.loop_pre(st)), 'loop_init', {'clause': e}))
+                               self.spec_bool(e, st, env0, self.loop_pre(st), as_goal=True), 'loop_init', {'clause': e}))
         sth = self.loop_havoc(st, s, spec, st)
         envh = self.inv_env(sth, {})
         sti = sth
@@ -852,7 +869,7 @@ class Verifier(ExprMixin, CallMixin, BuiltinMixin, StmtMixin, Executor):
                                 env4 = self.inv_env(st4, {})
                                 for name, e in invs:
                                     self.vcs.append(VC('%s#loop%d.preserve.%s@%s' % (c.key, ordinal, name, fresh_name('p')),
-                                                       st4.pc, self.spec_bool(e, st4, env4, self.loop_pre(st)),
+                                                       st4.pc, self.spec_bool(e, st4, env4, self.loop_pre(st), as_goal=True),
                                                        'loop_preserve', {'clause': e}))
                             elif out[0] == 'break':
                                 yield st4, FALL
@@ -881,9 +898,10 @@ class Verifier(ExprMixin, CallMixin, BuiltinMixin, StmtMixin, Executor):
         env, err = self.bind_params(fs, fake, args, kwargs, st, frc)
         if env is None:
             return [self.raise_(st, TypeError, err)]
-        if c is not None and not c.inline and (key != self.top_key or self.call_stack):
-            return self.apply_contract_env(st, c, env)
-        if c is not None and key == self.top_key:
+        if c is not None and not c.inline:
+            env = dict(env)
+            for n in c.closure:
+                env[n] = frc.closure[n]
             return self.apply_contract_env(st, c, env)
         if len(self.call_stack) >= self.MAX_INLINE or any(k == key for k, _ in self.call_stack):
             raise OutOfReach('recursive / deep inlining of %s' % key)
